@@ -60,11 +60,15 @@ func zzCatalogue(shape int) []Input {
 		return []Input{zzIn("tuple", false, zzIn("uint256[2]", true), zzIn("bytes", true)), zzIn("uint256", true)}
 	case 21: // dynamic array of fixed arrays of a mixed tuple
 		return []Input{zzIn("tuple[1][]", false, zzIn("bytes", true), zzIn("uint256", true))}
+	case 22: // an unselected static composite is skipped without being read; the next static field is
+		return []Input{zzIn("uint256[3]", false), zzIn("uint256", true)}
+	case 23: // unselected static tuple, then a selected static field and a selected dynamic one
+		return []Input{zzIn("tuple", false, zzIn("uint256", false), zzIn("address", false)), zzIn("address", true), zzIn("bytes", true)}
 	}
 	return nil
 }
 
-const zzCatalogueSize = 22
+const zzCatalogueSize = 24
 
 func wpgTable(name string, cols ...string) wpg.Table {
 	t := wpg.Table{Name: name}
